@@ -16,7 +16,8 @@ CLAIMED = {
               "integers, and an inductive lemma over arbitrary operation histories turns that into the statement (exact counts and byte "
               "sums per class, max = highest live figure after any prefix incl. the empty one). A driver over any history within the "
               "stated domain shows the preconditions are satisfiable. Twelve loop-free Kani harnesses assert the same postconditions on "
-              "the compiled code over the full input domain (complete) and supply concrete counterexamples that are replayed natively."),
+              "the compiled code over the full input domain (complete) and supply concrete counterexamples that are replayed natively; a thirteenth shows that each "
+              "of AllocProfiler's four request paths (zeroed included) leaves exactly the state the tally function of its kind leaves."),
         note=("Assumes no arithmetic overflow (stated as preconditions; the crate documents the same assumption), a 64-bit target, and "
               "trusted specs for usize::overflowing_sub / isize::wrapping_abs (each checked against real std by a complete Kani harness); "
               "ThreadAllocTallyMap::new (transmute) is external_body in Verus and checked by Kani. 'Other threads never change it' rests "
@@ -104,7 +105,10 @@ CLAIMED.update({
               "the positive ones after it (the iterator expression `.iter().position(..)` is pinned and replaced by an assumed 'first matching "
               "index' contract). Kani: SplitVec::insert keeps skip entries before the split for every order of up to 5 inserts and "
               "Filter::Exact is whole-string equality (bounded, quick); thorough tier: the rule again on up to 3 real filters, and "
-              "EntryTree::retain on a small tree (per-case decision, pruning of empty parents, path text parent::child[::arg])."),
+              "EntryTree::retain on a small tree (experimental tier only). Verus proves retain_one, the closure body of EntryTree::retain outlined (one node: a leaf "
+              "is kept iff its path passes, each runtime argument separately; a parent iff a child remains). Verus also proves, on the real text of Divan::run_action (calls replaced by opaque stand-ins followed by a ghost step log; iterator chains, the group loop, timer selection, eprintln!, column widths pinned): filtering is applied once, to the tree "
+              "with its groups attached (paths use groups' display names), before anything is listed, sorted or run, and nothing happens when it leaves "
+              "nothing. Kani (bounded): run_bench_entry dispatches exactly the labels left after filtering, each with its own value."),
         note=("Regex semantics (regex-lite), CLI-to-filter plumbing are undecided. The tree side (EntryTree::retain) is only bounded and only in "
               "the thorough tier (20+ min per harness): a change confined to retain is NOT detected by the quick tier."),
         technique="Verus contract on extracted FilterSet::is_match with a pinned stand-in; bounded Kani harnesses",
@@ -119,7 +123,9 @@ CLAIMED.update({
               "invoked), as are run_bench_entry's thread-list normalisation for lists of two (0 -> parallelism, ascending, duplicates collapse) and "
               "the runner's thread option winning over the entry's. Verus also proves, for every ArgMatches, on the region of the real Divan::config_with_args that copies parsed arguments into the runner (verified in chunks of five statements and composed): each run-time option given (sample-count, sample-size, threads sorted and deduplicated, "
               "min-time, max-time, skip-ext-time with or without value, the four counter flags, --ignored / --include-ignored) is stored as "
-              "Some(value) in its own field whatever the value, and an option not given leaves its field alone."),
+              "Some(value) in its own field whatever the value, and an option not given leaves its field alone. Verus also proves one level of Divan::run_tree for every tree: each benchmark is handed "
+              "to run_bench_entry, and each group's children are walked, with the node's own options over the inherited ones (child over parent), and "
+              "run_action starts the walk with nothing inherited; and the terse-listing walk's effective ignore (same unit as C14)."),
         note=("clap itself (flag names, value parsers, DIVAN_* environment fallbacks in src/cli.rs) is ASSUMED to deliver the parsed values; "
               "attribute parsing (proc macro) and the documented defaults are undecided."),
         technique="Kani complete (loop-free, full-domain) harnesses; Verus contract on a region of config_with_args with clap as an opaque stand-in",
@@ -130,8 +136,10 @@ CLAIMED.update({
               "TimeScale::picos its size, and the integer core of <FineDuration as Display>::fmt (region; float division and string building "
               "replaced by a data carrier) picks the unit by the stated rule (sub-ns shown in ns when > 3 figures), never overflows for "
               "precision <= 10, and passes exactly floor(value_in_unit * 10^p) (or whole days beyond DAY*10^p), which is < 2^53 for p <= 4. "
-              "Kani (complete): suffixes, from_picos on compiled code, util::fmt::scale_value's prefix for every f64."),
-        note=("f64::to_string and the digit truncation in format_f64 are NOT decided: a change confined to format_f64 is not detected. "
+              "Kani (complete): suffixes, from_picos on compiled code, util::fmt::scale_value's prefix for every f64. Kani (bounded): util::fmt::format_f64's "
+              "truncation rule (integer digits in full, max(0, 4 - d) decimals, truncated, no trailing zeros, no lone dot) on renderings of 1, 3 and 5 integer "
+              "digits, a dot and six fraction digits with every digit symbolic, f64::to_string being replaced by that rendering."),
+        note=("f64::to_string itself (std) is replaced by a chosen rendering; renderings with exponent or without a dot, and sig_figs other than 4, are not covered. "
               "Throughput float arithmetic and width/fill handling are not under contract."),
         technique="Verus contracts on extracted functions and one region; Kani complete harnesses",
         design_ref="5 C18"),
@@ -172,7 +180,7 @@ CLAIMED.update({
               "else the nearest enclosing group's, else false) holds - i.e. iff a run executes it; groups are never skipped themselves and the "
               "recursive call gets exactly the inherited setting (the recursive call is reasoned about through this same contract; path "
               "building and println! are pinned and dropped, termination not proved). A canary must fail. Kani: Divan::list_benches reaches "
-              "run_action with a list action (complete) and run_bench_entry with Action::List never invokes the benchmark function (bounded). Verus also proves, for every ArgMatches, on the region of the real Divan::config_with_args that copies parsed arguments into the runner (verified in chunks of five statements and composed): --list selects a listing action, the terse one exactly with --format terse."),
+              "run_action with a list action (complete) and run_bench_entry with Action::List never invokes the benchmark function (bounded). Verus also proves, for every ArgMatches, on the region of the real Divan::config_with_args that copies parsed arguments into the runner (verified in chunks of five statements and composed): --list selects a listing action, the terse one exactly with --format terse. Verus also proves, on the real text of Divan::run_action (calls replaced by opaque stand-ins followed by a ghost step log; iterator chains, the group loop, timer selection, eprintln!, column widths pinned): a terse listing lists the filtered tree once, from the root, with nothing inherited, and never walks it; any other action walks the tree with that very action."),
         note=("The text of the lines, the --exact round trip and clap parsing are undecided. Both repaired defects are detected again if "
               "they return (the pre-fix signature of run_tree_list is handled as 'nothing inherited')."),
         technique="Verus loop invariant over a ghost event log on the extracted run_tree_list; Kani harnesses",
@@ -198,9 +206,12 @@ CLAIMED.update({
               "Bounded Kani harnesses on the real comparators: integer argument names (1-2 digits, optional minus) of different value compare "
               "numerically under the name and kind attributes and never reach the textual comparison (the repaired defect); location order of "
               "arguments is declaration order; each attribute list has the chosen attribute first and each once (complete). Thorough tier: "
-              "cmp_int / natural_cmp compare digit runs by value and natural_cmp is reflexive and antisymmetric on short strings. Verus also proves, for every ArgMatches, on the region of the real Divan::config_with_args that copies parsed arguments into the runner (verified in chunks of five statements and composed): --sortr ATTR sets that attribute and the reverse flag, --sort ATTR that attribute ascending, sortr winning."),
+              "cmp_int / natural_cmp compare digit runs by value and natural_cmp is reflexive and antisymmetric on short strings. Verus also proves, for every ArgMatches, on the region of the real Divan::config_with_args that copies parsed arguments into the runner (verified in chunks of five statements and composed): --sortr ATTR sets that attribute and the reverse flag, --sort ATTR that attribute ascending, sortr winning; run_action sorts the tree once, by the "
+              "runner's attribute and direction, right before walking it; and the closures EntryTree::sort_by_attr gives to the std sorts (outlined): the "
+              "node comparator is cmp_by_attr, exactly reversed under --sortr; the argument comparator is cmp_bench_arg_names, exactly reversed under --sortr; "
+              "the recursion passes the same attribute and direction."),
         note=("str::parse::<f64> is stubbed to Err (CBMC cannot take dec2flt), so float names are not covered. The leaf comparisons under "
-              "EntryTree::cmp_by_attr (kind, display name, location, address) are assumed; the use of the reverse flag in the sort call and 'sorting only permutes' are undecided. "
+              "EntryTree::cmp_by_attr (kind, display name, location, address) are assumed; the std sorts themselves ('sorting only permutes') are assumed. "
               "Category 'other' because the name comparators are bounded only; only cmp_by_attr and with_tie_breakers are proved."),
         technique="Verus contract on the real cmp_by_attr (proved) + bounded Kani harnesses on the name comparators (bounded stand-in)",
         design_ref="5 C16"),
